@@ -595,6 +595,29 @@ def unsuitable_keys_family(fz: Fz, rng):
                                 fz.run("key-kind", name, lambda ep=ep, tfo=tfo: ep(tfo), {**d, "form": "flat", "epk": "of-the-verifiers-key-type"})
         if fz.ctx.out_of_time():
             return
+    # ECDH-1PU: the sender key comes from a key set of well-formed keys of every kind, the token's "skid" (the attacker's to choose) names each
+    J.register_drafts()
+    named = [{**kj, "kid": f"s{i}"} for i, kj in enumerate(kinds)]
+    sset_priv = j.KeySet([j.key(x) for x in named])
+    sset_pub = j.KeySet([j.key(x if x["kty"] == "oct" else gen.public_jwk(x)) for x in named])
+    for alg in ("ECDH-1PU", "ECDH-1PU+A128KW"):
+        for crv in ("P-256", "X25519"):
+            rkj, skj = g.keys_for(alg, "A128CBC-HS256", crv)
+            base = g.make("compact", "A128CBC-HS256", [(alg, rkj, skj)], b"pt")
+            p5 = base.token.split(".")
+            h5 = json.loads(b64u_dec(p5[0]))
+            bf = g.make("flattened", "A128CBC-HS256", [(alg, rkj, skj)], b"pt", alg_in="recipient")
+            for x in named + [{"kid": "no-such-kid"}, {"kid": ""}, {"kid": 5}, {"kid": ["s0"]}]:
+                h6 = {**h5, "skid": x["kid"]}
+                t6 = ".".join([hdr64(h6)] + p5[1:])
+                d = {"alg": alg, "curve": crv, "skid_names": x.get("kty", "nothing") + ":" + str(x.get("crv", ""))}
+                for sset in (sset_pub, sset_priv):
+                    for name, ep in jwe_eps(j, j.key(rkj), [alg, "A128CBC-HS256"], sset)[:2]:
+                        fz.run("key-kind", name, lambda ep=ep, t6=t6: ep(t6), {**d, "sender": "key set"})
+                    tf6 = copy.deepcopy(bf.token)
+                    tf6["header"] = {**(tf6.get("header") or {}), "skid": x["kid"]}
+                    for name, ep in jwe_json_eps(j, j.key(rkj), [alg, "A128CBC-HS256"], sset):
+                        fz.run("key-kind", name, lambda ep=ep, tf6=tf6: ep(tf6), {**d, "sender": "key set", "form": "flat"})
 
 
 def run_shard(ctx):
